@@ -151,6 +151,10 @@ func runC08(s *Sim) {
 	cancelAt := Pick(t, "cancel-at", 1*time.Second, 300*time.Millisecond, 4*time.Second)
 	victimKind := c08Kinds[t.Choose("victim", len(c08Kinds))]
 	victimDelay := Pick(t, "victim-delay", 200*time.Millisecond, time.Duration(0), time.Second)
+	if behaviour == "outage" && t.Bool("victim-late-in-the-outage", 1, 3) {
+		// several seconds into the outage the pauses between redial attempts have grown to seconds
+		victimDelay = Pick(t, "victim-delay-late", 6*time.Second, 4*time.Second, 9*time.Second)
+	}
 	victimTO := Pick(t, "victim-to", 2*time.Second, time.Second, 4*time.Second)
 	withVictim := t.Bool("with-victim", 3, 4)
 	s.Family = "blocking-" + behaviour
@@ -381,7 +385,13 @@ func runC08(s *Sim) {
 	}
 	if victim != nil {
 		if d, late := lateBy(victim, victimTO); late {
-			s.Violate("C08.ctx-ignored", "victim:"+victimKind+":while:"+kind, "%s with a %v deadline, issued while %s (ctx=%s, broker: %s) was in flight: %s", victimKind, victimTO, kind, target.ctxString(), behaviour, lateString(victim, d))
+			locus := "victim:" + victimKind + ":while:" + kind
+			if victimKind == "Conn.Close" && behaviour == "outage" && victim.harvested && d <= 8*time.Second {
+				// Close did return, late by at most one pause of the redial loop (0.1 s doubling up to 5 s, times
+				// 0.5..1.5): it waited for the connection mutex that the loop holds while it sleeps
+				locus = "victim:Conn.Close:late-by-one-redial-pause"
+			}
+			s.Violate("C08.ctx-ignored", locus, "%s with a %v deadline, issued while %s (ctx=%s, broker: %s) was in flight: %s", victimKind, victimTO, kind, target.ctxString(), behaviour, lateString(victim, d))
 		}
 	}
 	// the broker answers every ping at once in these runs and the link stays up under these
